@@ -4,6 +4,7 @@ import ast
 from . import rule, info
 from ..program import AnalysisError, src, norm, ClassInfo
 from ..tables import SINK_BUILTINS, SINK_EXTERNALS, SINK_EXTERNAL_PREFIXES, SAFE_LOADERS
+from ..pattern import match, matches
 from ..util import (is_name, calls_in, callee_qual, deref, ancestors, stmt_of, parent, handler_outcomes,
                     handler_covers, raised_class, is_subclass, kwarg, in_handler_of, enclosing_trys)
 
@@ -113,11 +114,44 @@ def sink_confinement(ctx):
     ctx.floor(9)
 
 
+def mw_roles(ctx):
+    """local names of mw_get_target / mw_handle_target by role"""
+    p = ctx.program
+    u = ctx.unit('cli.mw_get_target')
+    r = {}
+    posargs = u.params[1]
+    for n in ast.walk(u.node):
+        if isinstance(n, ast.If) and matches(n.test, 'len(%s) == 2' % posargs):
+            b = match(n.body[0], '$st, $tt = %s' % posargs)
+            if b:
+                r['spec_text'], r['target_text'] = b['st'], b['tt']
+    ret = [n for n in u.node.body if isinstance(n, ast.Return)]
+    if len(ret) == 1 and isinstance(ret[0].value, ast.Call):
+        kw = {k.arg: k.value for k in ret[0].value.keywords}
+        if is_name(kw.get('spec')) and is_name(kw.get('target')):
+            r['spec'], r['target'] = kw['spec'].id, kw['target'].id
+        r['return'] = ret[0]
+    hu = ctx.unit('cli.mw_handle_target')
+    for n in hu.own_nodes():
+        if isinstance(n, ast.Assign) and is_name(n.targets[0]) and isinstance(n.value, ast.Call) and is_name(n.value.func) \
+                and n.value.func.id not in hu.all_params and len(n.value.args) == 1 and is_name(n.value.args[0], hu.params[0]):
+            d = p.resolve_name(hu, n.value.func.id)
+            if d.kind == 'local':
+                r['load_func'] = n.value.func.id
+                r['loaded'] = n.targets[0].id
+                r['load_stmt'] = n
+    need = {'spec_text', 'target_text', 'spec', 'target', 'load_func', 'loaded'}
+    ctx.require(need <= set(r), 'CLI middleware: roles not found: %s' % sorted(need - set(r)))
+    return r
+
+
 @rule('C19.2')
 def spec_taint(ctx):
     p = ctx.program
     u = ctx.unit('cli.mw_get_target')
-    uses = [n for n in u.own_nodes() if isinstance(n, ast.Name) and n.id == 'spec_text' and isinstance(n.ctx, ast.Load)]
+    R = mw_roles(ctx)
+    ST, SP = R['spec_text'], R['spec']
+    uses = [n for n in u.own_nodes() if isinstance(n, ast.Name) and n.id == ST and isinstance(n.ctx, ast.Load)]
     ctx.require(len(uses) >= 6, 'mw_get_target: uses of spec_text not found')
     for n in uses:
         par = parent(n)
@@ -138,17 +172,17 @@ def spec_taint(ctx):
                '' if kind else 'the spec text flows into %s' % src(par, 60), node=n)
     # values derived from spec_text: `spec` only
     derived = [n for n in u.own_nodes() if isinstance(n, ast.Assign) and any(
-        isinstance(x, ast.Name) and x.id == 'spec_text' for x in ast.walk(n.value))]
+        isinstance(x, ast.Name) and x.id == ST for x in ast.walk(n.value))]
     for d in derived:
         t = d.targets[0]
-        ok = is_name(t) and t.id in ('spec', 'spec_text')
+        ok = is_name(t) and t.id in (SP, ST)
         ctx.ob(ok, u, 'values derived from the spec text are the spec itself: %s' % norm(d), node=d)
     # the python branch: bare words become a quoted string, then literal_eval
     py = [n for n in ast.walk(u.node) if isinstance(n, ast.If) and norm(n.test) == "spec_format == 'python'"]
-    ok = len(py) == 1 and norm(py[0].body[-1]) == 'spec = ast.literal_eval(spec_text)'
+    ok = len(py) == 1 and norm(py[0].body[-1]) == '%s = ast.literal_eval(%s)' % (SP, ST)
     ctx.ob(ok, u, 'the default format parses the text as a Python literal only')
     js = [n for n in ast.walk(u.node) if isinstance(n, ast.If) and norm(n.test) == "spec_format == 'json'"]
-    ok = len(js) == 1 and norm(js[0].body[-1]) == 'spec = json.loads(spec_text)'
+    ok = len(js) == 1 and norm(js[0].body[-1]) == '%s = json.loads(%s)' % (SP, ST)
     ctx.ob(ok, u, 'the json format parses the text as JSON only')
     # the default spec format is python
     gu = ctx.unit('cli.get_command')
@@ -210,17 +244,18 @@ def printed_is_computed(ctx):
     ctx.ob(all(r.value is None for r in rets), u, 'success returns nothing (exit status 0)')
     # the middleware hands over exactly the parsed spec and the loaded target
     mu = ctx.unit('cli.mw_get_target')
+    R = mw_roles(ctx)
     r = [n for n in mu.node.body if isinstance(n, ast.Return)]
     ok = len(r) == 1 and isinstance(r[0].value, ast.Call) and is_name(r[0].value.func, mu.params[0]) \
-        and {k.arg: norm(k.value) for k in r[0].value.keywords} == {'spec': 'spec', 'target': 'target'}
+        and {k.arg: norm(k.value) for k in r[0].value.keywords} == {'spec': R['spec'], 'target': R['target']} and not r[0].value.args
     ctx.ob(ok, mu, 'the middleware hands over the parsed spec and the loaded target: %s' % [norm(x) for x in r])
-    tg = [n for n in mu.node.body if isinstance(n, ast.Assign) and is_name(n.targets[0], 'target')]
-    ok = len(tg) == 1 and norm(tg[0].value) == 'mw_handle_target(target_text, target_format)'
+    tg = [n for n in mu.node.body if isinstance(n, ast.Assign) and is_name(n.targets[0], R['target'])]
+    ok = len(tg) == 1 and norm(tg[0].value) == 'mw_handle_target(%s, target_format)' % R['target_text']
     ctx.ob(ok, mu, 'the target is what the loader returns: %s' % [norm(t) for t in tg])
     hu = ctx.unit('cli.mw_handle_target')
     hr = [n for n in hu.node.body if isinstance(n, ast.Return)]
-    ld = [n for n in hu.own_nodes() if isinstance(n, ast.Assign) and isinstance(n.value, ast.Call) and is_name(n.value.func, 'load_func')]
-    ok = len(ld) == 1 and is_name(ld[0].value.args[0], hu.params[0]) and hr and is_name(hr[-1].value, ld[0].targets[0].id)
+    ld = [R['load_stmt']]
+    ok = is_name(ld[0].value.args[0], hu.params[0]) and hr and is_name(hr[-1].value, R['loaded'])
     ctx.ob(ok, hu, 'the loader result is returned unchanged: %s' % [norm(x) for x in ld])
     cu = ctx.unit('cli.get_command')
     cmd = [c for c in calls_in(cu) if callee_qual(p, cu, c) == 'face.Command' or (isinstance(c.func, ast.Name) and c.func.id == 'Command')]
@@ -248,6 +283,7 @@ def error_paths(ctx):
         ctx.ob(set(handler_outcomes(cfg, h)) == {'return'}, u, 'nothing is printed as a result after an error')
     hu = ctx.unit('cli.mw_handle_target')
     hcfg = ctx.cfg(hu)
+    R = mw_roles(ctx)
     # format chain
     chain = []
     s = next((n for n in hu.node.body if isinstance(n, ast.If) and 'target_format' in norm(n.test)), None)
@@ -262,14 +298,14 @@ def error_paths(ctx):
     ok = len(last) == 1 and isinstance(last[0], ast.Raise) and is_subclass_name(p, hu, last[0], 'UsageError')
     ctx.ob(ok, hu, 'an unknown target format is a usage error: %s' % [src(x, 70) for x in last])
     for br in chain:
-        binds = [n for n in ast.walk(ast.Module(body=br.body, type_ignores=[])) if isinstance(n, ast.Assign) and is_name(n.targets[0], 'load_func')]
+        binds = [n for n in ast.walk(ast.Module(body=br.body, type_ignores=[])) if isinstance(n, ast.Assign) and is_name(n.targets[0], R['load_func'])]
         for b in binds:
             q = p.global_qualname(hu, b.value)
             if q is None and isinstance(b.value, ast.Attribute) and isinstance(b.value.value, ast.Name):
                 q = '%s.%s' % (b.value.value.id, b.value.attr)       # function-local imports (yaml, tomllib, tomli)
             ctx.ob(q in SAFE_LOADERS, hu, 'format %s binds a safe loader: %s' % (norm(br.test), q), node=b)
         ctx.ob(bool(binds), hu, 'format %s binds a loader' % norm(br.test))
-    ld = [c for c in calls_in(hu) if is_name(c.func, 'load_func')]
+    ld = [c for c in calls_in(hu) if is_name(c.func, R['load_func'])]
     ctx.require(len(ld) == 1, 'mw_handle_target: loader call not found')
     ln = hcfg.node_containing(ld[0])
     lhs = hcfg.handlers_reached_from(ln)
@@ -296,7 +332,7 @@ def error_paths(ctx):
     last = [n for n in ast.walk(mu.node) if isinstance(n, ast.If) and norm(n.test) == "spec_format == 'python-full'"]
     ok = len(last) == 1 and len(last[0].orelse) == 1 and isinstance(last[0].orelse[0], ast.Raise) and is_subclass_name(p, mu, last[0].orelse[0], 'UsageError')
     ctx.ob(ok, mu, 'an unknown spec format is a usage error')
-    both = [n for n in ast.walk(mu.node) if isinstance(n, ast.If) and norm(n.test) in ('spec_text and spec_file', 'target_text and target_file')]
+    both = [n for n in ast.walk(mu.node) if isinstance(n, ast.If) and norm(n.test) in ('%s and spec_file' % R['spec_text'], '%s and target_file' % R['target_text'])]
     ctx.ob(len(both) == 2 and all(isinstance(b.body[0], ast.Raise) for b in both), mu, 'conflicting sources are usage errors')
     ctx.floor(20)
 
@@ -328,7 +364,7 @@ def entry_points(ctx):
     p = ctx.program
     u = ctx.unit('cli.main')
     r = [n for n in u.node.body if isinstance(n, ast.Return)]
-    ok = len(r) == 1 and norm(r[0].value) == 'cmd.run(argv) or 0'
+    ok = len(r) == 1 and matches(r[0].value, '$c.run(%s) or 0' % u.params[0])
     ctx.ob(ok, u, 'main returns the command\'s status, 0 when none: %s' % [norm(x) for x in r])
     cu = ctx.unit('cli.console_main')
     ex = [c for c in calls_in(cu) if callee_qual(p, cu, c) == 'sys.exit']
@@ -339,13 +375,14 @@ def entry_points(ctx):
            'python -m glom runs the console entry')
     # stdin / file / argv target selection
     mu = ctx.unit('cli.mw_get_target')
+    R = mw_roles(ctx)
     rd = [c for c in calls_in(mu) if norm(c) == 'sys.stdin.read()']
     ctx.ob(len(rd) == 2, mu, 'standard input is read for "-" and when no target argument is given on a pipe')
     sel = [n for n in mu.node.body if isinstance(n, ast.If) and norm(n.test) == 'len(posargs_) == 2']
-    ok = len(sel) == 1 and norm(sel[0].body[0]) == 'spec_text, target_text = posargs_'
+    ok = len(sel) == 1 and norm(sel[0].body[0]) == '%s, %s = posargs_' % (R['spec_text'], R['target_text'])
     ctx.ob(ok, mu, 'two positional arguments are (spec, target) in that order')
-    em = [n for n in ast.walk(mu.node) if isinstance(n, ast.If) and norm(n.test) == 'not spec_text']
-    ok = len(em) == 1 and norm(em[0].body[0]) == 'spec = Path()'
+    em = [n for n in ast.walk(mu.node) if isinstance(n, ast.If) and norm(n.test) == 'not %s' % R['spec_text']]
+    ok = len(em) == 1 and norm(em[0].body[0]) == '%s = Path()' % R['spec']
     ctx.ob(ok, mu, 'no spec means the identity path')
     hu = ctx.unit('cli.mw_handle_target')
     e = hu.node.body[0]
